@@ -433,6 +433,17 @@ def batch_global(n: S, ranks: Optional[RankFacts] = None) -> Optional[Hit]:
             if r is not None and any(x < 0 and -x == r for x in dims):
                 return Hit(n, "reduce-all", base, f"{fn}(dim={dims}) on a rank-{r} tensor reduces the batch axis")
         return None
+    # x.index_fill(dim, index, v) / index_copy / index_add with a non-batch dim: EVERY row receives every entry of `index`;
+    # with an index that has one entry per row (a batch-leading value) row r is written at the positions chosen for all rows
+    if o == "meth" and a[1] in ("index_fill", "index_fill_", "index_copy", "index_copy_", "index_add", "index_add_") and len(_plain_args(a[2:])) >= 2:
+        pa_ = _plain_args(a[2:])
+        if _cint(pa_[0]) not in (0, None) and isinstance(pa_[1], S) and not is_scalarish(pa_[1]) and not is_scalarish(a[0]):
+            return Hit(n, "flatten", pa_[1], f".{a[1]}(dim, index, ...) applies the whole index vector to every row: the entries chosen for the other instances are written into this row as well")
+    # torch.dist(a, b) / a.dist(b): ONE number for the whole tensors (the p-norm of the flattened difference)
+    if (fn == "torch.dist" and len(_plain_args(a[1:])) >= 2) or (o == "meth" and a[1] == "dist" and len(_plain_args(a[2:])) >= 1):
+        base_ = _plain_args(a[1:])[0] if fn == "torch.dist" else a[0]
+        if isinstance(base_, S) and not is_scalarish(base_):
+            return Hit(n, "reduce-all", base_, "dist(a, b) is the norm of the flattened difference: one value for all rows")
     if o == "meth" and a[1] == "item":
         if is_scalarish(a[0]):
             return None
